@@ -490,6 +490,11 @@ fn run(ctx: &mut Ctx) {
     if ctx.mine(job) {
         multi_root_slice(ctx, &comps);
     }
+    job += 1;
+    if ctx.mine(job) {
+        low_descriptor_slice(ctx);
+        let _ = std::env::set_current_dir(&w);
+    }
     // verbatim copying of a multi-byte file name (no widths: char/byte padding is unspecified)
     job += 1;
     if ctx.mine(job) {
@@ -611,6 +616,28 @@ fn multi_root_slice(ctx: &mut Ctx, comps: &[Comp]) {
             }
         }
     }
+}
+
+/// 150 directories with 64 file descriptors (see props/lowfd.rs): -printf renders the 451st record like the first.
+fn low_descriptor_slice(ctx: &mut Ctx) {
+    use crate::props::lowfd;
+    let _ = lowfd::build(ctx);
+    let cases: Vec<(Vec<&str>, usize)> = vec![(vec!["lf", "-printf", "%d %y %f %h %P\\n"], 451), (vec!["lf", "-name", "l", "-printf", "%l %Y\\n"], 150), (vec!["-L", "lf", "-printf", "%n %s %i\\n"], 451), (vec!["lf", "-name", "f", "-fprintf", "/dev/stdout", "%p\\n"], 150)];
+    for (args, want) in cases {
+        let o = lowfd::find(ctx, &args, 64, vec![]);
+        ctx.rep.evaluations += 1;
+        ctx.rep.nontrivial += 1;
+        ctx.rep.count("low_descriptor_limit_cases", 1);
+        let got = lowfd::lines(&o.out).len();
+        if o.died() || o.code != Some(0) || got != want {
+            ctx.rep.violation(
+                "C16 over 150 directories with 64 file descriptors: the later entries are not handled like the first",
+                format!("find {:?} under RLIMIT_NOFILE=64: {got} lines, expected {want}; status {:?}; stderr {:?}", args, o.code, String::from_utf8_lossy(&o.err).lines().take(2).collect::<Vec<_>>()),
+                json!({"prop":"C16","low_descriptor":true}),
+            );
+        }
+    }
+    lowfd::remove(ctx);
 }
 
 fn mount_point_slice(ctx: &mut Ctx) {
